@@ -81,7 +81,7 @@ def main():
         return pipeline.build_unit(uname, os.path.join(VERIF, u['cpp']), roots, defines=u.get('defines', ()),
                                    sessions=u.get('sessions', 2), cuts=u.get('cuts', ()), inline_all=u.get('inline_all', False),
                                    cdefs=u.get('cdefs', ()), all_hooks=u.get('all_hooks', False), coroutines=u.get('coroutines', ()), nested=u.get('nested', False),
-                                   intruder=u.get('intruder', False), new_hints=u.get('new_hints'),
+                                   intruder=u.get('intruder', False), new_hints=u.get('new_hints'), no_typed_arrays=u.get('no_typed_arrays', False),
                                    extra_c=[os.path.join(VERIF, x) for x in u.get('extra_c', ())])
     with ThreadPoolExecutor(max_workers=a.jobs) as ex:
         futs = {ex.submit(build, n): n for n in need}
@@ -211,7 +211,9 @@ def main():
                     disagreements.append('%s: native build failed: %s' % (h['fn'], err[-300:]))
                     break
                 rc, out, e2 = native_run(exe, h['fn'], s['inputs'], wd, 'w' + s['reach'].split(':')[1])
-                if rc == 0 and ('REACH ' + s['reach']) in out:
+                # the witness marker was reached on the real build (an assumption that fails AFTER the marker only ends the
+                # concrete run there: the solver's witness is an execution up to the marker)
+                if rc in (0, 3) and ('REACH ' + s['reach']) in out and 'ASSERT-FAIL' not in out:
                     validated += 1
                 else:
                     disagreements.append('%s: witness %s not reproduced natively (rc=%d %s)' % (h['fn'], s['reach'], rc, out.strip()[-200:]))
